@@ -151,6 +151,16 @@ impl Store {
     }
 }
 
+#[cfg(nomt_verif)]
+impl Store {
+    /// Verification hook: the bump and the head of the free list this store was opened with /
+    /// holds after the last sync. Deadlocks if a sync is ongoing.
+    pub fn verif_bump_and_head(&self) -> (u32, Option<u32>) {
+        let sync = self.sync.lock();
+        (sync.bump.0, sync.free_list.head_pn().map(|pn| pn.0))
+    }
+}
+
 /// A convenience wrapper around a [`Store`]. This wraps the page pool, along with
 /// the store.
 #[derive(Clone)]
